@@ -564,6 +564,27 @@ def step {w : Nat} (st : St w) (line : String) : Res w :=
   | "pfx" :: rest => pfxOp st rest
   | "view" :: r :: rest => viewOp st r rest
   | "viewmut" :: r :: rest => viewOp st r rest
+  | "par_bump" :: r :: d :: rest =>
+    -- two threads bump the values of the two sides of a split view: any interleaving equals the
+    -- sequential result (C14), which is what the model computes
+    match st.get r, d.toInt?, parseVSteps w st.masked rest with
+    | some (m, e), some d, some steps =>
+      match runView m.root e steps View.root (some []) 0 with
+      | .error (mm, sm) => (st, mm, sm)
+      | .ok (v, _) =>
+        let d : Val := if r == "S" then 0 else d
+        let cur := v.pfx m.root
+        let sl := match v.left m.root with | some vl => (Tree.iterAllS [vl.node m.root]).map (·.1) | none => []
+        let sr := match v.right m.root with | some vr => (Tree.iterAllS [vr.node m.root]).map (·.1) | none => []
+        let xa := regionEntries e ((specRegionStep e (some []) cur .left))
+        let xb := regionEntries e ((specRegionStep e (some []) cur .right))
+        let reg := (runView m.root e steps View.root (some []) 0)
+        let regk := match reg with | .ok (_, k) => k | .error _ => none
+        let inView := regionEntries e regk
+        let ka := (xa.filter (fun x => inView.any (fun y => Spec.sameKey x.1 y.1))).map (·.1)
+        let kb := (xb.filter (fun x => inView.any (fun y => Spec.sameKey x.1 y.1))).map (·.1)
+        (st.set r { m with root := bumpSlots m.root (sl ++ sr) d } (bumpKeys e (ka ++ kb) d), "ok", "ok")
+    | _, _, _ => bad st
   | "setop" :: kind :: rest => setOp st kind rest
   | "setop_split" :: kind :: rest => setOpSplit st kind rest
   | ["eq", ra, rb] =>
